@@ -226,6 +226,22 @@ def run(report):
             report.failure("c04-string-escapes", "a string literal does not have the value the README defines: got %r want %r" % (got, want),
                            {"op": "compile", "src": t, "observed": got, "readme": want})
     report.coverage["escape_literals"] = n_lit
+    # the examples the README gives for the path functions, verbatim
+    README_EXAMPLES = [('extension("/foo/bar.txt")', "txt"), ('file_name("/foo/bar.txt")', "bar.txt"), ('file_stem("/foo/bar.txt")', "bar"),
+                       ('parent_directory("/foo/bar.txt")', "/foo"), ('without_extension("/foo/bar.txt")', "/foo/bar"),
+                       ('clean("foo//bar")', "foo/bar"), ('clean("foo/..")', "."), ('clean("foo/./bar")', "foo/bar"),
+                       ('join("foo/bar", "baz")', "foo/bar/baz")]
+    ex = jv.pbatch([{"op": "compile", "src": "x := %s\n" % e} for e, _ in README_EXAMPLES])
+    with C.scratch("c04x") as d:
+        open(os.path.join(d, "justfile"), "w").write("".join("v%d := %s\n" % (i, e) for i, (e, _) in enumerate(README_EXAMPLES)))
+        pe = subprocess.run([C.JUST, "--evaluate"], cwd=d, env=dict(C.BASE_ENV), stdin=subprocess.DEVNULL, stdout=subprocess.PIPE, stderr=subprocess.PIPE)
+        vals = dict(re.findall(r'^(v\d+) +:= "(.*)"$', pe.stdout.decode("utf-8", "replace"), re.M))
+    for i, (e, want) in enumerate(README_EXAMPLES):
+        got = vals.get("v%d" % i)
+        if got != want:
+            report.failure("c04-readme-example:%s" % e.split("(")[0], "%s evaluates to %r, the README says %r" % (e, got, want),
+                           {"justfile": "x := %s\n" % e, "argv": ["--evaluate", "x"], "observed": got, "readme": want})
+    report.coverage["readme_examples"] = len(README_EXAMPLES)
     # the same programs written in a second textual order: values must not depend on it
     cases2 = []
     for (assigns, overrides, text_order, plan, use_set) in cases[: n // 4]:
